@@ -35,7 +35,9 @@ CONSTANTS Inst,        \* instances holding the same log key
           ClockAnomalies,  \* TRUE: clock reads may stall or go backwards
           CacheLoss,       \* TRUE: the dedup cache of a down instance may be lost
           Stops,           \* TRUE: the sequencer may stop (cancel / sunset)
-          LiveRounds       \* TRUE: MaxRounds bounds only the rounds that start with an empty pool
+          LiveRounds,      \* TRUE: MaxRounds bounds only the rounds that start with an empty pool
+          CachePutFails,   \* TRUE: the (ignored) error of cachePut is explored
+          CrashInCreate    \* TRUE: CreateLog may be interrupted by a crash
 
 VARIABLES
     \* durable, shared
@@ -129,10 +131,9 @@ CreateUploadCp(i, a, o) ==
 (* LoadLog *)
 LoadFetchLock(i) ==
     /\ pc[i] = "down"
-    /\ IF IsCp(lockVal)
-       THEN /\ pc' = [pc EXCEPT ![i] = "l.pub"]
-            /\ held' = [held EXCEPT ![i] = lockVal] /\ mem' = [mem EXCEPT ![i] = lockVal]
-       ELSE /\ UNCHANGED <<pc, held, mem>>          \* ErrLogNotFound: stays down
+    /\ IsCp(lockVal)             \* (a missing log: ErrLogNotFound, LoadLog returns, nothing changes)
+    /\ pc' = [pc EXCEPT ![i] = "l.pub"]
+    /\ held' = [held EXCEPT ![i] = lockVal] /\ mem' = [mem EXCEPT ![i] = lockVal]
     /\ pool' = [pool EXCEPT ![i] = <<>>] /\ inSeq' = [inSeq EXCEPT ![i] = {}]
     /\ cur' = [cur EXCEPT ![i] = NoRound] /\ stopped' = [stopped EXCEPT ![i] = FALSE]
     /\ act' = <<"LoadFetchLock", i>>
@@ -167,7 +168,7 @@ LoadApply(i, t, a, o) ==
     /\ pc[i] = "l.apply" /\ t \in cur[i].todo /\ (o => a) /\ Fault(o)
     /\ objs' = IF a THEN objs \cup {Obj(t, cur[i].tree)} ELSE objs
     /\ cur' = [cur EXCEPT ![i].todo = @ \ {t}, ![i].failed = @ \/ ~o]
-    /\ act' = <<"LoadApply", i, t, a, o>>
+    /\ act' = <<"LoadApply", i, t.k, t.l, t.n, t.w, a, o>>
     /\ UNCHANGED <<lockVal, pubVal, staging, cache, pc, mem, held, pool, inSeq, stopped, clk, crashes, rounds, subs, lockHist, pubHist, acks, discardedEarly, cacheLost>>
 
 LoadAwait(i) ==
@@ -279,7 +280,7 @@ TimeGuard(i, now) ==
             IN /\ cur' = [cur EXCEPT ![i].tree = nt, ![i].ts = now, ![i].old = Len(mem[i].tree),
                                      ![i].todo = NewTiles(Len(mem[i].tree), Len(nt))]
                /\ pc' = [pc EXCEPT ![i] = IF Len(p) = 0 THEN "cas" ELSE "stage"]
-    /\ act' = <<"TimeGuard", i, now>>
+    /\ act' = <<"TimeGuard", i, IF now < mem[i].ts THEN "less" ELSE IF now = mem[i].ts THEN "equal" ELSE "greater">>
     /\ UNCHANGED <<durable, mem, held, pool, inSeq, stopped, faults, crashes, rounds, subs, lockHist, pubHist, acks, discardedEarly, cacheLost>>
 
 \* staging bundle upload: non-fatal on error (the pool fails)
@@ -311,7 +312,7 @@ TileUpload(i, t, a, o) ==
     /\ pc[i] = "tiles" /\ t \in cur[i].todo /\ (o => a) /\ Fault(o)
     /\ objs' = IF a THEN objs \cup {Obj(t, cur[i].tree)} ELSE objs
     /\ cur' = [cur EXCEPT ![i].todo = @ \ {t}, ![i].failed = @ \/ ~o]
-    /\ act' = <<"TileUpload", i, t, a, o>>
+    /\ act' = <<"TileUpload", i, t.k, t.l, t.n, t.w, a, o>>
     /\ UNCHANGED <<lockVal, pubVal, staging, cache, pc, mem, held, pool, inSeq, stopped, clk, crashes, rounds, subs, lockHist, pubHist, acks, discardedEarly, cacheLost>>
 
 TilesAwait(i) ==
@@ -345,7 +346,7 @@ RoundLeaves(i) ==
 
 \* cachePut; an error is ignored
 CachePut(i, o) ==
-    /\ pc[i] = "cacheput"
+    /\ pc[i] = "cacheput" /\ (o \/ CachePutFails)
     /\ cache' = IF o THEN [cache EXCEPT ![i] = @ \cup RoundLeaves(i)] ELSE cache
     /\ cacheLost' = IF o THEN cacheLost ELSE [cacheLost EXCEPT ![i] = TRUE]
     /\ pc' = [pc EXCEPT ![i] = "close"]
@@ -397,6 +398,7 @@ Stop(i) ==
 (* environment *)
 Crash(i) ==
     /\ pc[i] \notin {"down", "absent"} /\ crashes < MaxCrashes
+    /\ (CrashInCreate \/ pc[i] \notin CreatePcs)
     /\ crashes' = crashes + 1
     /\ pc' = [pc EXCEPT ![i] = "down"]
     /\ pool' = [pool EXCEPT ![i] = <<>>] /\ inSeq' = [inSeq EXCEPT ![i] = {}]
